@@ -727,7 +727,8 @@ func (x *c08runner) evalSingle(kind string, c c08call, sa, sb *obiseq.BioSequenc
 		sa, sb = c08mkseq("A", c.A, c.QA), c08mkseq("B", c.B, c.QB)
 	}
 	arena := MakePEAlignArena(len(c.A), len(c.B))
-	res := c08run(c, sa, sb, arena, &x.shifts, true)
+	shifts := map[int]int{} // fresh: a single call never depends on earlier ones (histories are part iii)
+	res := c08run(c, sa, sb, arena, &shifts, true)
 	r.Eval(1)
 	r.Trans(1)
 	r.Count("calls_"+c08mode(&c), 1)
@@ -843,164 +844,40 @@ func TestVerifC08(t *testing.T) {
 	thorough := verifkit.Thorough()
 	k := 0 // work item index
 
-	// ---------- (i) all short read pairs ----------
-	lmax := 4
-	if thorough {
-		lmax = 5
-	}
-	pats := c08patterns
-	if thorough {
-		pats = append(append([]string{}, c08patterns...), "zero2")
-	}
-	r.Bound("i_alphabet", "acgt")
-	r.Bound("i_lengths", fmt.Sprintf("1..%d x 1..%d", lmax, lmax))
-	r.Bound("i_quality_patterns", pats)
-	r.Bound("configs", "exact + fast{rel,abs} x delta{0,2}, each x gap{1,2} x scale{1,0.5} (quick tier, part i: quality patterns other than u40/alt with exact and fast-rel-delta0 only)")
-	cfgs := c08configs([]int{0, 2})
-	doPairs := func(kind string, reads []string, pats []string) bool {
-		for _, a := range reads {
-			for _, b := range reads {
-				if !r.Mine(k) {
-					k++
-					continue
-				}
-				k++
-				r.State(kind + ":" + a + "|" + b)
-				for _, pat := range pats {
-					qa, qb := c08quals(pat, len(a), false), c08quals(pat, len(b), true)
-					sa, sb := c08mkseq("A", a, qa), c08mkseq("B", b, qb)
-					var orcs [4]c08oracle
-					for ci, cf := range cfgs {
-						if !thorough && pat != "u40" && pat != "alt" && cf.Fast && (cf.Delta != 0 || !cf.Rel) {
-							continue // quick tier: secondary quality patterns with exact and fast-rel-delta0 only
-						}
-						c := c08call{A: a, B: b, QA: qa, QB: qb, Fast: cf.Fast, Rel: cf.Rel, Delta: cf.Delta, Gap: cf.Gap, Scale: cf.Scale}
-						oi := 0
-						if cf.Gap == 2 {
-							oi += 2
-						}
-						if cf.Scale == 0.5 {
-							oi++
-						}
-						_ = ci
-						// the optimum oracle is needed by exact mode only; make sure it is filled first
-						x.evalSingle(kind, c, sa, sb, &orcs[oi], "", 0, 0)
-					}
-				}
-			}
-			if r.Expired() {
-				return false
-			}
-		}
-		return true
-	}
-	if !doPairs("pair", verifkit.AllStrings("acgt", 1, lmax), pats) {
-		return
-	}
-	// IUPAC symbols (ambiguity codes score as partial matches)
-	il := 2
-	if thorough {
-		il = 3
-	}
-	r.Bound("i_iupac", fmt.Sprintf("alphabet acgtnry, lengths 1..%d", il))
-	if !doPairs("iupac", verifkit.AllStrings("acgtnry", 1, il), []string{"u40", "alt"}) {
-		return
-	}
-	// longer IUPAC reads so that the 4-mer heuristic is exercised: a fixed 10-mer with one symbol replaced
-	{
-		base := "gattacagtc"
-		var reads []string
-		reads = append(reads, base, base[2:], base[:8])
-		for p := 0; p < len(base); p++ {
-			for _, s := range "nry" {
-				reads = append(reads, base[:p]+string(s)+base[p+1:])
-			}
-		}
-		r.Bound("i_iupac_long", fmt.Sprintf("%d reads: %s, two cuts of it, and every single replacement by n/r/y", len(reads), base))
-		if !doPairs("iupac10", reads, []string{"u40", "alt"}) {
-			return
-		}
-	}
-
-	// ---------- (ii) all overlap geometries ----------
-	lmin, lmaxU := 8, 14
-	if thorough {
-		lmaxU = 24
-	}
 	srcs := c08sources()
-	r.Bound("ii_sources", srcs)
-	r.Bound("ii_fragment_lengths", fmt.Sprintf("%d..%d (prefixes of each source)", lmin, lmaxU))
-	gpats := []string{"u40", "alt", "ramp"}
-	if thorough {
-		gpats = []string{"u40", "u2", "alt", "ramp", "zero", "q93"}
-	}
-	r.Bound("ii_quality_patterns", gpats)
-	gcfgs := c08configs([]int{0, 2})
-	for _, src := range srcs {
-		for L := lmin; L <= lmaxU; L++ {
-			u := src[:L]
-			type geo struct{ a0, la, b0, lb int }
-			var geos []geo
-			// A starts the fragment
-			for la := 1; la <= L; la++ {
-				if la < L {
-					for b0 := 0; b0 <= la; b0++ { // overlap la-b0 >= 0, B ends the fragment
-						geos = append(geos, geo{0, la, b0, L - b0})
+	secI := func() bool {
+		// ---------- (i) all short read pairs ----------
+		lmax := 4
+		if thorough {
+			lmax = 5
+		}
+		pats := c08patterns
+		if thorough {
+			pats = append(append([]string{}, c08patterns...), "zero2")
+		}
+		r.Bound("i_alphabet", "acgt")
+		r.Bound("i_lengths", fmt.Sprintf("1..%d x 1..%d", lmax, lmax))
+		r.Bound("i_quality_patterns", pats)
+		r.Bound("configs", "exact + fast{rel,abs} x delta{0,2}, each x gap{1,2} x scale{1,0.5} (quick tier, part i: quality patterns other than u40/alt with exact and fast-rel-delta0 only)")
+		cfgs := c08configs([]int{0, 2})
+		doPairs := func(kind string, reads []string, pats []string) bool {
+			for _, a := range reads {
+				for _, b := range reads {
+					if !r.Mine(k) {
+						k++
+						continue
 					}
-				} else {
-					for b0 := 0; b0 < L; b0++ { // B anywhere inside A (containment, identical starts/ends)
-						for lb := 1; lb <= L-b0; lb++ {
-							geos = append(geos, geo{0, la, b0, lb})
-						}
-					}
-				}
-			}
-			// B starts the fragment, A starts later
-			for lb := 1; lb <= L; lb++ {
-				if lb < L {
-					for a0 := 1; a0 <= lb; a0++ {
-						geos = append(geos, geo{a0, L - a0, 0, lb})
-					}
-				} else {
-					for a0 := 1; a0 < L; a0++ {
-						for la := 1; la <= L-a0; la++ {
-							geos = append(geos, geo{a0, la, 0, lb})
-						}
-					}
-				}
-			}
-			for _, g := range geos {
-				if !r.Mine(k) {
 					k++
-					continue
-				}
-				k++
-				a, b := u[g.a0:g.a0+g.la], u[g.b0:g.b0+g.lb]
-				r.State(fmt.Sprintf("geom:%s:%d:%d:%d:%d", u, g.a0, g.la, g.b0, g.lb))
-				r.Count("geometries", 1)
-				// variants: error free, then one substitution at every position of A and of B
-				nvar := 1 + g.la + g.lb
-				for v := 0; v < nvar; v++ {
-					va, vb, vu := a, b, u
-					if v >= 1 {
-						vu = "" // no reassembly claim for reads with an error
-						p := v - 1
-						if p < g.la {
-							va = c08subst(a, p)
-						} else {
-							vb = c08subst(b, p-g.la)
-						}
-					}
-					vp := gpats
-					if v >= 1 && !thorough {
-						vp = gpats[:2]
-					}
-					for _, pat := range vp {
-						qa, qb := c08quals(pat, len(va), false), c08quals(pat, len(vb), true)
-						sa, sb := c08mkseq("A", va, qa), c08mkseq("B", vb, qb)
+					r.State(kind + ":" + a + "|" + b)
+					for _, pat := range pats {
+						qa, qb := c08quals(pat, len(a), false), c08quals(pat, len(b), true)
+						sa, sb := c08mkseq("A", a, qa), c08mkseq("B", b, qb)
 						var orcs [4]c08oracle
-						for _, cf := range gcfgs {
-							c := c08call{A: va, B: vb, QA: qa, QB: qb, Fast: cf.Fast, Rel: cf.Rel, Delta: cf.Delta, Gap: cf.Gap, Scale: cf.Scale}
+						for ci, cf := range cfgs {
+							if !thorough && pat != "u40" && pat != "alt" && cf.Fast && (cf.Delta != 0 || !cf.Rel) {
+								continue // quick tier: secondary quality patterns with exact and fast-rel-delta0 only
+							}
+							c := c08call{A: a, B: b, QA: qa, QB: qb, Fast: cf.Fast, Rel: cf.Rel, Delta: cf.Delta, Gap: cf.Gap, Scale: cf.Scale}
 							oi := 0
 							if cf.Gap == 2 {
 								oi += 2
@@ -1008,76 +885,213 @@ func TestVerifC08(t *testing.T) {
 							if cf.Scale == 0.5 {
 								oi++
 							}
-							x.evalSingle("geom", c, sa, sb, &orcs[oi], vu, g.a0, g.b0)
+							_ = ci
+							// the optimum oracle is needed by exact mode only; make sure it is filled first
+							x.evalSingle(kind, c, sa, sb, &orcs[oi], "", 0, 0)
 						}
 					}
 				}
 				if r.Expired() {
-					return
+					return false
 				}
 			}
+			return true
 		}
-	}
-
-	// ---------- (iii) arena histories ----------
-	{
-		var sub []c08call
-		u := srcs[0][:20]
-		u2 := srcs[1][:24]
-		mk := func(a, b, pat string, cf c08cfg) {
-			sub = append(sub, c08call{A: a, B: b, QA: c08quals(pat, len(a), false), QB: c08quals(pat, len(b), true),
-				Fast: cf.Fast, Rel: cf.Rel, Delta: cf.Delta, Gap: cf.Gap, Scale: cf.Scale})
+		if !doPairs("pair", verifkit.AllStrings("acgt", 1, lmax), pats) {
+			return false
 		}
-		ex := c08cfg{false, false, 0, 2, 1}
-		fr := c08cfg{true, true, 2, 2, 1}
-		fa := c08cfg{true, false, 0, 1, 0.5}
-		type pr struct{ a, b string }
-		pairs := []pr{
-			{u[:12], u[6:20]},                 // left overlap 6
-			{u[6:20], u[:12]},                 // right geometry
-			{u, u[4:12]},                      // containment
-			{u[:10], u[:10]},                  // identical
-			{u[:9], c08subst(u[4:18], 2)},     // one error in the overlap
-			{"ac", "gt"},                      // tiny
-			{u2, u2[3:]},                      // long, repeats
-			{u2[:8], u2[12:24]},               // unrelated pieces
-			{"acgta", "cgtac"},                // short with gaps likely
-			{u2[:16], c08subst(u2[6:24], 5)},  // error, repeats
-			{"a", u[:14]},                     // length 1 vs long
-			{c08subst(u[:15], 7), u[5:20]},    // error in A
-			{u[:14], u[10:20]},                // overlap 4
-			{u[:14], u[12:20]},                // overlap 2
+		// IUPAC symbols (ambiguity codes score as partial matches)
+		il := 2
+		if thorough {
+			il = 3
 		}
-		for i, p := range pairs {
-			mk(p.a, p.b, "alt", ex)
-			mk(p.a, p.b, "ramp", fr)
-			if i < 12 {
-				mk(p.a, p.b, "u40", fa)
+		r.Bound("i_iupac", fmt.Sprintf("alphabet acgtnry, lengths 1..%d", il))
+		if !doPairs("iupac", verifkit.AllStrings("acgtnry", 1, il), []string{"u40", "alt"}) {
+			return false
+		}
+		// longer IUPAC reads so that the 4-mer heuristic is exercised: a fixed 10-mer with one symbol replaced
+		{
+			base := "gattacagtc"
+			var reads []string
+			reads = append(reads, base, base[2:], base[:8])
+			for p := 0; p < len(base); p++ {
+				for _, s := range "nry" {
+					reads = append(reads, base[:p]+string(s)+base[p+1:])
+				}
+			}
+			r.Bound("i_iupac_long", fmt.Sprintf("%d reads: %s, two cuts of it, and every single replacement by n/r/y", len(reads), base))
+			if !doPairs("iupac10", reads, []string{"u40", "alt"}) {
+				return false
 			}
 		}
-		r.Bound("iii_call_subset", len(sub))
-		fresh := make([]*c08res, len(sub))
-		for i, c := range sub {
-			w := c08run(c, c08mkseq("A", c.A, c.QA), c08mkseq("B", c.B, c.QB), MakePEAlignArena(len(c.A), len(c.B)), &map[int]int{}, true)
-			fresh[i] = &w
+
+		return true
+	}
+	secII := func() bool {
+		// ---------- (ii) all overlap geometries ----------
+		lmin, lmaxU := 8, 16
+		if thorough {
+			lmaxU = 24
 		}
-		n := len(sub)
-		for i := 0; i < n; i++ {
-			for j := 0; j < n; j++ {
-				if r.Mine(k) {
-					x.evalHistory([]c08call{sub[i], sub[j]}, []*c08res{fresh[i], fresh[j]})
-					for l := 0; l < n; l++ {
-						x.evalHistory([]c08call{sub[i], sub[j], sub[l]}, []*c08res{fresh[i], fresh[j], fresh[l]})
+		r.Bound("ii_sources", srcs)
+		r.Bound("ii_fragment_lengths", fmt.Sprintf("%d..%d (prefixes of each source)", lmin, lmaxU))
+		gpats := []string{"u40", "alt", "ramp"}
+		if thorough {
+			gpats = []string{"u40", "u2", "alt", "ramp", "zero", "q93"}
+		}
+		r.Bound("ii_quality_patterns", gpats)
+		gcfgs := c08configs([]int{0, 2})
+		for _, src := range srcs {
+			for L := lmin; L <= lmaxU; L++ {
+				u := src[:L]
+				type geo struct{ a0, la, b0, lb int }
+				var geos []geo
+				// A starts the fragment
+				for la := 1; la <= L; la++ {
+					if la < L {
+						for b0 := 0; b0 <= la; b0++ { // overlap la-b0 >= 0, B ends the fragment
+							geos = append(geos, geo{0, la, b0, L - b0})
+						}
+					} else {
+						for b0 := 0; b0 < L; b0++ { // B anywhere inside A (containment, identical starts/ends)
+							for lb := 1; lb <= L-b0; lb++ {
+								geos = append(geos, geo{0, la, b0, lb})
+							}
+						}
 					}
 				}
-				k++
-			}
-			if r.Expired() {
-				return
+				// B starts the fragment, A starts later
+				for lb := 1; lb <= L; lb++ {
+					if lb < L {
+						for a0 := 1; a0 <= lb; a0++ {
+							geos = append(geos, geo{a0, L - a0, 0, lb})
+						}
+					} else {
+						for a0 := 1; a0 < L; a0++ {
+							for la := 1; la <= L-a0; la++ {
+								geos = append(geos, geo{a0, la, 0, lb})
+							}
+						}
+					}
+				}
+				for _, g := range geos {
+					if !r.Mine(k) {
+						k++
+						continue
+					}
+					k++
+					a, b := u[g.a0:g.a0+g.la], u[g.b0:g.b0+g.lb]
+					r.State(fmt.Sprintf("geom:%s:%d:%d:%d:%d", u, g.a0, g.la, g.b0, g.lb))
+					r.Count("geometries", 1)
+					// variants: error free, then one substitution at every position of A and of B
+					nvar := 1 + g.la + g.lb
+					for v := 0; v < nvar; v++ {
+						va, vb, vu := a, b, u
+						if v >= 1 {
+							vu = "" // no reassembly claim for reads with an error
+							p := v - 1
+							if p < g.la {
+								va = c08subst(a, p)
+							} else {
+								vb = c08subst(b, p-g.la)
+							}
+						}
+						vp := gpats
+						if v >= 1 && !thorough {
+							vp = gpats[:2]
+						}
+						for _, pat := range vp {
+							qa, qb := c08quals(pat, len(va), false), c08quals(pat, len(vb), true)
+							sa, sb := c08mkseq("A", va, qa), c08mkseq("B", vb, qb)
+							var orcs [4]c08oracle
+							for _, cf := range gcfgs {
+								c := c08call{A: va, B: vb, QA: qa, QB: qb, Fast: cf.Fast, Rel: cf.Rel, Delta: cf.Delta, Gap: cf.Gap, Scale: cf.Scale}
+								oi := 0
+								if cf.Gap == 2 {
+									oi += 2
+								}
+								if cf.Scale == 0.5 {
+									oi++
+								}
+								x.evalSingle("geom", c, sa, sb, &orcs[oi], vu, g.a0, g.b0)
+							}
+						}
+					}
+					if r.Expired() {
+						return false
+					}
+				}
 			}
 		}
-	}
 
+		return true
+	}
+	secIII := func() bool {
+		// ---------- (iii) arena histories ----------
+		{
+			var sub []c08call
+			u := srcs[0][:20]
+			u2 := srcs[1][:24]
+			mk := func(a, b, pat string, cf c08cfg) {
+				sub = append(sub, c08call{A: a, B: b, QA: c08quals(pat, len(a), false), QB: c08quals(pat, len(b), true),
+					Fast: cf.Fast, Rel: cf.Rel, Delta: cf.Delta, Gap: cf.Gap, Scale: cf.Scale})
+			}
+			ex := c08cfg{false, false, 0, 2, 1}
+			fr := c08cfg{true, true, 2, 2, 1}
+			fa := c08cfg{true, false, 0, 1, 0.5}
+			type pr struct{ a, b string }
+			pairs := []pr{
+				{u[:12], u[6:20]},                // left overlap 6
+				{u[6:20], u[:12]},                // right geometry
+				{u, u[4:12]},                     // containment
+				{u[:10], u[:10]},                 // identical
+				{u[:9], c08subst(u[4:18], 2)},    // one error in the overlap
+				{"ac", "gt"},                     // tiny
+				{u2, u2[3:]},                     // long, repeats
+				{u2[:8], u2[12:24]},              // unrelated pieces
+				{"acgta", "cgtac"},               // short with gaps likely
+				{u2[:16], c08subst(u2[6:24], 5)}, // error, repeats
+				{"a", u[:14]},                    // length 1 vs long
+				{c08subst(u[:15], 7), u[5:20]},   // error in A
+				{u[:14], u[10:20]},               // overlap 4
+				{u[:14], u[12:20]},               // overlap 2
+			}
+			for i, p := range pairs {
+				mk(p.a, p.b, "alt", ex)
+				mk(p.a, p.b, "ramp", fr)
+				if i < 12 {
+					mk(p.a, p.b, "u40", fa)
+				}
+			}
+			r.Bound("iii_call_subset", len(sub))
+			fresh := make([]*c08res, len(sub))
+			for i, c := range sub {
+				w := c08run(c, c08mkseq("A", c.A, c.QA), c08mkseq("B", c.B, c.QB), MakePEAlignArena(len(c.A), len(c.B)), &map[int]int{}, true)
+				fresh[i] = &w
+			}
+			n := len(sub)
+			for i := 0; i < n; i++ {
+				for j := 0; j < n; j++ {
+					if r.Mine(k) {
+						x.evalHistory([]c08call{sub[i], sub[j]}, []*c08res{fresh[i], fresh[j]})
+						for l := 0; l < n; l++ {
+							x.evalHistory([]c08call{sub[i], sub[j], sub[l]}, []*c08res{fresh[i], fresh[j], fresh[l]})
+						}
+					}
+					k++
+				}
+				if r.Expired() {
+					return false
+				}
+			}
+		}
+
+		return true
+	}
+	// cheap sections first: under an internal deadline the bulk section (i) is the one cut short
+	if !secIII() || !secII() || !secI() {
+		return
+	}
 	r.RequireNonVacuous("valid_paths")
 	r.RequireNonVacuous("fast_dp_branch")
 	r.RequireNonVacuous("fast_identical_branch")
